@@ -69,7 +69,7 @@ def mkdirP (w : World) (p : Str) : Except Err World :=
 def touchP (w : World) (p : Str) : Except Err World :=
   match mkdirP w (PurePath.parent p) with
   | .error e => .error e
-  | .ok w => .ok { w with nodes := w.nodes ++ [(p, .file)] }
+  | .ok w => if w.pathExists p then .ok w else .ok { w with nodes := w.nodes ++ [(p, .file)] }
 
 /-- `fnmatch` of one path component against a pattern component containing only `*` wildcards -/
 def compMatch (pat name : Str) : Bool :=
@@ -109,7 +109,7 @@ def sidecarPath (d : DCtx) (p : Str) : Str :=
 /-- `FindInPaths(config).star_search_simple(search_sids, as_sid=False)`.
     `searched` = (type, pattern) pairs already globbed, `found` = paths already yielded. -/
 def pathsStarGo (d : DCtx) (w : World) (config : Option Str) :
-    List Sid → List (Str × Str) → List Str → Except Err (List Str)
+    List Sid → List (Str × Str) → List Str → Except Err (List Sid)
   | [], _, _ => .ok []
   | s :: rest, searched, found =>
     match d.ctx.sidPath config s with
@@ -117,7 +117,7 @@ def pathsStarGo (d : DCtx) (w : World) (config : Option Str) :
     | .ok p =>
       let pattern := p.getD ['N','o','n','e']
       if searched.contains (s.type, pattern) then pathsStarGo d w config rest searched found else
-      let step := (w.glob pattern).foldl (fun (acc : Except Err (List Str × List Str)) path =>
+      let step := (w.glob pattern).foldl (fun (acc : Except Err (List Sid × List Str)) path =>
         match acc with
         | .error e => .error e
         | .ok (out, found) =>
@@ -128,7 +128,7 @@ def pathsStarGo (d : DCtx) (w : World) (config : Option Str) :
           | .ok x =>
             if x.type != s.type then .ok (out, found)
             else if !x.typed then .ok (out, found)
-            else .ok (out ++ [x.string], found ++ [path])) (.ok ([], found))
+            else .ok (out ++ [x], found ++ [path])) (.ok ([], found))
       match step with
       | .error e => .error e
       | .ok (out, found) =>
@@ -136,8 +136,12 @@ def pathsStarGo (d : DCtx) (w : World) (config : Option Str) :
         | .error e => .error e
         | .ok more => .ok (out ++ more)
 
-def pathsStar (d : DCtx) (w : World) (config : Option Str) (searches : List Sid) : Except Err (List Str) :=
+/-- `star_search_simple(searches, as_sid=True)`: the Sids built from the found paths -/
+def pathsStarSids (d : DCtx) (w : World) (config : Option Str) (searches : List Sid) : Except Err (List Sid) :=
   pathsStarGo d w config searches [] []
+
+def pathsStar (d : DCtx) (w : World) (config : Option Str) (searches : List Sid) : Except Err (List Str) :=
+  (pathsStarSids d w config searches).map (fun l => l.map (·.string))
 
 /-- the search Sids a star search receives when `sorted_search` hands it `[Sid(uri with > → *)]` -/
 def resolveSearch (d : DCtx) (uri : Str) : Except Err Sid := d.ctx.sidOfString uri
@@ -165,6 +169,16 @@ def doFindWith (d : DCtx) (star : List Sid → Except Err (List Str)) (searches 
 /-- `FindInPaths(config).do_find` -/
 def pathsDoFind (d : DCtx) (w : World) (config : Option Str) (searches : List Sid) : Except Err (List Str) :=
   d.doFindWith (d.pathsStar w config) searches
+
+/-- `FindInPaths(config).do_find(searches, as_sid=True)`: a star search yields the Sids built from
+    the paths; a sorted search yields `Sid(string)` of its picks -/
+def pathsDoFindSids (d : DCtx) (w : World) (config : Option Str) (searches : List Sid) : Except Err (List Sid) :=
+  if searches.isEmpty then .ok [] else
+  if searches.any (fun x => Str.hasChar '>' x.string) then
+    match d.pathsDoFind w config searches with
+    | .error e => .error e
+    | .ok strs => Ctx.mapE (fun s => d.ctx.sidOfString s) strs
+  else d.pathsStarSids w config searches
 
 /-- `FindInPaths(config).find(search, as_sid=False)` -/
 def findInPaths (d : DCtx) (w : World) (config : Option Str) (search : Str) : Except Err (List Str) :=
@@ -441,16 +455,32 @@ def getData (d : DCtx) (w : World) (config : Option Str) (x : Sid) (attributes :
     let stored : Dict := match w.sidecars.lookup (d.sidecarPath path) with
       | some (.data dd) => dd
       | _ => []
-    -- JSON text of the encoded Sid: a JSON string literal is out of the model's business; the
-    -- harness compares the decoded value, so the model keeps the raw text
+    -- the encoded Sid is kept as the raw string (stored attribute values are opaque JSON texts)
     let encoded : Option Str := match enc with
       | .str => if x.string.isEmpty then Option.none else some x.string
       | .uri => if x.uri.isEmpty then Option.none else some x.uri
       | .none => Option.none
     let data := match encoded with
-      | some s => Dict.set stored ['s','i','d'] ('"' :: s ++ ['"'])
+      | some s => Dict.set stored ['s','i','d'] s
       | Option.none => stored
     if attributes.isEmpty then .ok (data.map (fun (k, v) => (k, some v)))
     else .ok (attributes.map (fun k => (k, data.get k)))
+
+/-- one record: `get_data(sid, ...) or {}` where `Sid(sid)` re-resolves the found Sid's uri -/
+def recordOf (d : DCtx) (w : World) (config : Option Str) (x : Sid) (attributes : List Str) (enc : Enc) :
+    Except Err (List (Str × Option Str)) :=
+  match (if x.typed then d.ctx.sidOfString x.uri else .ok Sid.empty) with
+  | .error e => .error e
+  | .ok y => d.getData w config y attributes enc
+
+/-- `GetFromPaths(config).get(search, attributes, sid_encode)` (`GetByFinder.get`) -/
+def getFromPaths (d : DCtx) (w : World) (config : Option Str) (search : Str) (attributes : List Str) (enc : Enc) :
+    Except Err (List (List (Str × Option Str))) :=
+  match d.ctx.findSearches search with
+  | .error e => .error e
+  | .ok searches =>
+    match d.pathsDoFindSids w config searches with
+    | .error e => .error e
+    | .ok sids => Ctx.mapE (fun x => d.recordOf w config x attributes enc) sids
 
 end DCtx
